@@ -126,4 +126,15 @@ def cfg0 : Config := { input := "a/setup.go", output := "a/setup.gen.go", log :=
 example : (run cfg0 (fun _ _ => .ok "CODE" [] []) w0).world.get "a/setup.gen.go" = some "CODE" ∧
     (run cfg0 (fun _ _ => .ok "CODE" [] []) w0).exit = 0 := by decide
 
+/-- **a standard output that cannot be written changes nothing else**: the exit status, the
+diagnostics and every file are those of the same run with a working standard output — in
+particular a run never *fails* after it has written its output because printing failed (C15:
+"whenever the run ends in an error, the output path is left exactly as it was"). -/
+theorem stdout_failure_neutral (cfg : Config) (core : World → Config → CoreResult) (w : World) :
+    (runWithStdout false cfg core w).exit = (runWithStdout true cfg core w).exit ∧
+    (runWithStdout false cfg core w).stderr = (runWithStdout true cfg core w).stderr ∧
+    (runWithStdout false cfg core w).world = (runWithStdout true cfg core w).world ∧
+    (runWithStdout false cfg core w).stdout = [] := by
+  simp [runWithStdout]
+
 end Convergen.Props.C15
